@@ -397,3 +397,47 @@ func (p *Pool) Put(x any) {
 	p.free = append(p.free, x)
 	p.mu.Unlock()
 }
+
+// OnceFunc, OnceValue and OnceValues (Go 1.21) on top of the Once above. As in the real package a panic
+// of f is re-raised by every call.
+func OnceFunc(f func()) func() {
+	var once Once
+	var valid bool
+	var p any
+	g := func() {
+		defer func() {
+			p = recover()
+			if !valid {
+				panic(p)
+			}
+		}()
+		f()
+		f = nil
+		valid = true
+	}
+	return func() {
+		once.Do(g)
+		if !valid {
+			panic(p)
+		}
+	}
+}
+
+func OnceValue[T any](f func() T) func() T {
+	var result T
+	do := OnceFunc(func() { result = f() })
+	return func() T {
+		do()
+		return result
+	}
+}
+
+func OnceValues[T1, T2 any](f func() (T1, T2)) func() (T1, T2) {
+	var r1 T1
+	var r2 T2
+	do := OnceFunc(func() { r1, r2 = f() })
+	return func() (T1, T2) {
+		do()
+		return r1, r2
+	}
+}
